@@ -590,3 +590,21 @@ func VerifC08CopyPanicSource() {
 	cps[1].Close()
 	vassert(sw.Send(9, nil), "when both copies are closed the source is closed and the writer is told on its next send")
 }
+
+// "the writer is told on its next send" when the last reader is a merged reader fed by a forwarder goroutine that is
+// waiting on the source at the moment the merged reader is closed
+func VerifC08CloseWhileForwarderWaits() {
+	vcfg("fifo", 1)
+	vcfg("selectfirst", 1)
+	sr, sw := Pipe[int](0)
+	cps := sr.Copy(2)
+	merged := MergeStreamReaders([]*StreamReader[int]{cps[0], StreamReaderFromArray([]int{})})
+	cps[1].Close()
+	vyield() // the forwarder of cps[0] starts and blocks on the empty source
+	merged.Close()
+	told := sw.Send(1, nil)
+	told2 := told || sw.Send(2, nil)
+	vquiesce()
+	vassert(told2, "the writer is told at the latest on its second send")
+	vassert(told, "when every reader derived from the stream has been closed the writer is told on its next send (merged reader closed while its forwarder waits on the source)")
+}
